@@ -290,3 +290,53 @@ Proof.
       simpl. apply in_or_app. left. exact Y.
   - intros H Hne. inversion H; subst. exists CInvalid. simpl. auto.
 Qed.
+
+(* ---------- claims (provide_actuation) ---------- *)
+Lemma mem_z_in x l : mem_z x l = true <-> In x l.
+Proof.
+  unfold mem_z. rewrite existsb_exists. split.
+  - intros [y [Hy E]]. apply Z.eqb_eq in E. subst. exact Hy.
+  - intros H. exists x. split; [exact H|apply Z.eqb_refl].
+Qed.
+
+Lemma scan_never_already_exists db p now ids :
+  first_error (can_actuate_id db p now) ids <> Some AAlreadyExists.
+Proof.
+  induction ids as [|x r IH]; cbn [first_error]; [discriminate|].
+  destruct (can_actuate_id db p now x) as [e|] eqn:C; [|exact IH].
+  intros H; inversion H; subst. unfold can_actuate_id in C.
+  destruct (read_entry db p now x) as [en|re].
+  - destruct (can_write_actuator_target p now (path_segs (e_meta en))); discriminate.
+  - destruct re; discriminate.
+Qed.
+
+(* "already exists" is reported only when some actuator the claim names has a registered owner (live, or lost and
+   not yet removed by housekeeping); naming an actuator twice in one claim is no such cause *)
+Theorem claim_already_exists_cause st p ids st' :
+  provide_actuation st p ids = (st', inr AAlreadyExists) ->
+  exists id a, In id ids /\ In a (st_asubs st) /\ as_registered a = true /\ In id (as_ids a).
+Proof.
+  unfold provide_actuation.
+  destruct (first_error (can_actuate_id (st_db st) p (st_now st)) ids) as [e|] eqn:F.
+  - intros H; inversion H; subst.
+    (* the permission / existence scan never answers AlreadyExists *)
+    exfalso. apply (scan_never_already_exists _ _ _ _ F).
+  - match goal with |- context[existsb ?f ids] => destruct (existsb f ids) eqn:X end; [|discriminate].
+    intros _. apply existsb_exists in X. destruct X as [id [Hin M]]. apply mem_z_in in M.
+    apply in_flat_map in M. destruct M as [a [Ha Hid]]. exists id, a.
+    destruct (as_registered a) eqn:R; [|destruct Hid]. repeat split; assumption.
+Qed.
+
+(* a claim whose actuators all exist, may be actuated by the caller and have no registered owner is served *)
+Theorem claim_served st p ids :
+  first_error (can_actuate_id (st_db st) p (st_now st)) ids = None ->
+  (forall id a, In id ids -> In a (st_asubs st) -> as_registered a = true -> ~ In id (as_ids a)) ->
+  exists h, snd (provide_actuation st p ids) = inl h.
+Proof.
+  intros F N. unfold provide_actuation. rewrite F.
+  match goal with |- context[existsb ?f ids] => destruct (existsb f ids) eqn:X end.
+  - exfalso. apply existsb_exists in X. destruct X as [id [Hin M]]. apply mem_z_in in M.
+    apply in_flat_map in M. destruct M as [a [Ha Hid]].
+    destruct (as_registered a) eqn:R; [|destruct Hid]. exact (N id a Hin Ha R Hid).
+  - eexists. reflexivity.
+Qed.
